@@ -764,8 +764,36 @@ fn sub_c12_long(input: &[u8], st: &mut Stats) -> R {
     let mut cs = Cs::new(input);
     let p = pools();
     let mut it = Interp::new();
+    let dom = cs.below(8);
+    if dom == 7 {
+        // a few calls with very long operand lists (around the 16-bit word-count boundary)
+        it.call(&mut cs, method("begin_function"))?;
+        it.call(&mut cs, method("begin_block"))?;
+        let with_list: Vec<&'static MethodMeta> = p
+            .block
+            .iter()
+            .chain(p.term.iter())
+            .copied()
+            .filter(|m| m.mi.params.iter().any(|(_, t)| t.starts_with("implIntoIterator") || t.starts_with("implAsRef")))
+            .collect();
+        let k = 1 + cs.below(3);
+        for _ in 0..k {
+            if it.selection().1.is_none() {
+                it.call(&mut cs, method("begin_block"))?;
+            }
+            let mm = pick(&mut cs, &with_list);
+            it.env.list_len = Some([65_530usize, 65_531, 65_532, 65_533, 65_534, 65_535, 65_536, 70_000, 20_000][cs.below(9)]);
+            let r = it.call(&mut cs, mm);
+            it.env.list_len = None;
+            r?;
+            c12_step(&mut cs, &mut it, p)?;
+        }
+        st.count("long_run_dominant_huge_operand_lists");
+        st.add("builder_calls", it.ncalls as u64);
+        st.nontrivial(hash_str(&format!("{:?}", it.methods_called)));
+        return Ok(());
+    }
     let n = 260 + cs.below(900);
-    let dom = cs.below(7);
     it.call(&mut cs, method("begin_function"))?;
     if dom == 1 {
         it.call(&mut cs, method("begin_block"))?;
